@@ -30,7 +30,9 @@ const CATS: [(&str, u32); 15] = [
 ];
 
 fn word(rng: &mut Rng) -> String {
-    let n = rng.range(1, 8) as usize;
+    // one word in fifty is long: a path has no length limit (a fixed 256-byte or 1 KiB buffer on the
+    // hashing side shows only beyond it)
+    let n = if rng.chance(1, 50) { *rng.pick(&[100usize, 200, 246, 250, 256, 300, 1000, 4000]) } else { rng.range(1, 8) as usize };
     (0..n)
         .map(|_| match rng.below(12) {
             0 => (b'0' + rng.below(10) as u8) as char,
